@@ -14,13 +14,13 @@ NEEDS = {
  'C04-A': ('dispatcher falls back to the internal attribute name', 'a request using the internal name of an unexported / custom-named accessible', 'caught at once'),
  'C04-B': ('dispatcher no longer validates with previous=', 'a partial struct in a change request', 'caught at once'),
  'C05-A': ('recovery to the same value not treated as a change', 'value, error, same value again within the omit window', 'strengthened: oracle on the cache itself added (before any agent ran)'),
- 'C05-B': ('broadcast moved outside the update lock', 'two threads updating one parameter, T1 descheduled between cache update and send', 'MISSED by design: thread schedules are outside the technique (not claimed)'),
+ 'C05-B': ('broadcast moved outside the update lock', 'two threads updating one parameter, T1 descheduled between cache update and send', 'missed by the sequential harness; caught since harness/C05_races.py explores thread schedules (cosched)'),
  'C06-A': ('optional=[] of a struct not exported', 'a struct without optional members and a payload omitting a member', 'strengthened: struct without optional members + command argument probes added'),
  'C06-B': ('unexported module keeps its wire names', 'a request aimed at a module configured with export=False', 'caught at once'),
  'C07-A': ('newline scan offset not reset', 'a segment boundary inside a line followed by a segment with the rest plus a shorter complete line', 'caught at once'),
  'C07-B': ('json.dumps(ensure_ascii=False) in the frame encoder', 'a reply echoing a lone surrogate', 'caught at once (catalogue line with \\\\ud800)'),
  'C08-A': ('broadcast_event mutates the stored subscriber set', 'a parameter scope entry exists, a globally active connection sees an update, then deactivates', 'strengthened: final quiescence phase added'),
- 'C08-B': ('activate registers the connection after sending the snapshot', 'a driver update between snapshot and registration', 'MISSED by design: needs a thread interleaving (not claimed)'),
+ 'C08-B': ('activate registers the connection after sending the snapshot', 'a driver update between snapshot and registration', 'missed by the sequential harness; caught since harness/C08_races.py explores thread schedules (patch rebased and demo adapted after fix 1d380e3)'),
  'C09-A': ('Command.clone shares argument/result datatypes', 'plain-method override of a struct-argument command, or run-time mutation of a command datatype', 'strengthened: struct-argument command + mutation of a command datatype added'),
  'C09-B': ('bare property override written into the base Property', 'a two-level chain of bare-value overrides of one module property', 'strengthened: property-two-level hierarchy added'),
  'C10-A': ('write wrapper binds the class level validator', 'limits overridden in the configuration and a write not going through the dispatcher', 'caught at once'),
@@ -96,7 +96,7 @@ def main():
         for r in rows:
             f.write('| ' + ' | '.join(x.replace('|', '/') for x in r) + ' |\n')
         n = sum(1 for r in rows if r[3] == 'yes')
-        f.write(f'\n{n} of {len(rows)} detected; the two misses need a thread interleaving, which this technique does not explore (DESIGN.md section 7).\n')
+        f.write(f'\n{n} of {len(rows)} detected' + ('.\n' if n == len(rows) else '; see the rows marked no.\n'))
     print(open(os.path.join(VERIF, 'seeded', 'SUMMARY.md')).read()[-300:])
 
 
